@@ -41,6 +41,8 @@ class FakeJson:
         self.dumped = []
 
     def dumps(self, obj, **kw):
+        if obj is None or obj is True or obj is False:
+            return _real_json.dumps(obj)        # scalars keep their real text (code compares it with 'null')
         t = JsonToken(_snapshot(obj), kw)
         self.dumped.append(t)
         return t
